@@ -18,6 +18,7 @@ BOUNDED_PARTS = {
     "C10": ("init",),
     "C11": ("dynamics", "placement", "frame", "grid", "objective", "freetime"),
     "C14": ("dynamics", "placement", "frame", "objective", "scaling"),
+    "C13": ("dynamics", "placement", "frame", "objective", "pvals", "init"),
 }
 
 
